@@ -1,6 +1,7 @@
 import CarModel.Proofs.Cli
 import CarModel.Proofs.Create
 import CarModel.Proofs.FactsTie
+import CarModel.Proofs.InspectFull
 /-
 C19 — CLI outputs are valid archives and mean what the library says.
 
@@ -74,6 +75,37 @@ theorem verify_accepts_index_output (H : HashFn) (o : ReadOpts) (codec : Nat) (r
     (hrec : RecordsOK (withOffsets (headerSize ⟨some roots, 1⟩) bs)) :
     verifyCar H o (layoutV2 0 0 (payload (some roots) bs) true false ix.bytes) = .ok () :=
   verify_accepts_indexed H o codec roots bs ix hne hin ok h10 lok hix hrec
+
+/-- (5) **`car inspect --full` accepts what `car index` emits**, for every valid payload and either
+    codec, and reports the payload's own statistics plus the codec: the layout of (1) is a laid-out
+    CARv2 (C13 `inspect_valid_v2`), and a serialized index starts with its codec varint. -/
+theorem inspect_accepts_index_output (H : HashFn) (hU : H.Uniform) (o : ReadOpts) (roots : Option (List Cid))
+    (bs : List Block) (ix : Index)
+    (hwf : (CarHeader.mk roots 1).wf) (hmax : (encodeHeaderBody ⟨roots, 1⟩).length ≤ o.maxHeader)
+    (h63 : (encodeHeaderBody ⟨roots, 1⟩).length < 2 ^ 63) (h10 : 10 ≤ o.maxHeader)
+    (lok : LayoutOK 0 0 (payload roots bs).length)
+    (hok : ∀ b ∈ bs, b.wf o.maxSection ∧ b.cid.digest.length ≤ maxDigestAlloc ∧
+      (sumOk H b.cid b.data = true ∧ verifies H b.cid b.data = true)) :
+    inspect H o true (layoutV2 0 0 (payload roots bs) true false ix.bytes)
+      = .ok (statsOf 2 (finalHeader 0 0 (payload roots bs).length true false) (roots.getD [])
+              (bs.map seenOf) ix.codec) := by
+  have := inspect_layoutV2 H hU o true 0 0 roots bs true false ix.bytes ix.codec hwf hmax h63 h10 lok
+    (fun b hb => ⟨(hok b hb).1, (hok b hb).2.1, fun _ => (hok b hb).2.2⟩) (fun _ => index_bytes_codec ix)
+  simpa using this
+
+/-- (5b) … and what `car concat` (and every sub-command whose output is a valid CARv1 payload:
+    `index --version 1`, `filter`/`get-dag`/`create` in CARv1 mode) emits: inspection of
+    `payload r (b1 ++ b2 ++ …)` succeeds with the concatenation's statistics. -/
+theorem inspect_accepts_concat_output (H : HashFn) (hU : H.Uniform) (o : ReadOpts) (r1 : Option (List Cid))
+    (b1 : List Block) (rest : List (Option (List Cid) × List Block))
+    (hwf : (CarHeader.mk r1 1).wf) (hmax : (encodeHeaderBody ⟨r1, 1⟩).length ≤ o.maxHeader)
+    (h63 : (encodeHeaderBody ⟨r1, 1⟩).length < 2 ^ 63)
+    (hok : ∀ b ∈ b1 ++ rest.flatMap (·.2), b.wf o.maxSection ∧ b.cid.digest.length ≤ maxDigestAlloc ∧
+      (sumOk H b.cid b.data = true ∧ verifies H b.cid b.data = true)) :
+    inspect H o true (payload r1 (b1 ++ rest.flatMap (·.2)))
+      = .ok (statsOf 1 {} (r1.getD []) ((b1 ++ rest.flatMap (·.2)).map seenOf) 0) :=
+  inspect_layoutV1 H hU o true r1 _ hwf hmax h63
+    (fun b hb => ⟨(hok b hb).1, (hok b hb).2.1, fun _ => (hok b hb).2.2⟩)
 
 /-- Non-vacuity: a one-block list is walkable. -/
 example : Walkable [⟨⟨1, 0x55, 0, [1, 2]⟩, [1, 2]⟩] := by
